@@ -88,12 +88,17 @@ impl FlagBool {
     #[inline]
     pub fn load(&self, order: Ordering) -> bool {
         point("atomic:load", self as *const FlagBool as u64);
-        self.0.load(order)
+        let v = self.0.load(order);
+        // a second point right after the access: whatever follows it (e.g. the release of a
+        // lock, which has no point of its own) can then be delayed past other threads' steps
+        point("atomic:loaded", self as *const FlagBool as u64);
+        v
     }
     #[inline]
     pub fn store(&self, v: bool, order: Ordering) {
         point("atomic:store", self as *const FlagBool as u64);
-        self.0.store(v, order)
+        self.0.store(v, order);
+        point("atomic:stored", self as *const FlagBool as u64);
     }
 }
 
